@@ -97,10 +97,17 @@ pub fn new_source_literals(l: L) -> Vec<String> {
     let mut out: Vec<String> = vec![];
     let mut files: Vec<std::path::PathBuf> = std::fs::read_dir(&dir).map(|rd| rd.flatten().map(|e| e.path()).filter(|p| p.extension().map_or(false, |e| e == "rs")).collect()).unwrap_or_default();
     files.sort();
+    // language-independent tables live in the shared files
+    let src = format!("{}/harness/repo/src", crate::infra::verif_root());
+    for f in ["word_to_digit.rs", "tokenizer.rs", "lang/mod.rs", "digit_string.rs"] {
+        files.push(std::path::PathBuf::from(format!("{src}/{f}")));
+    }
     for f in files {
         let Ok(text) = std::fs::read_to_string(&f) else { continue };
-        // the unit tests of the module are not vocabulary
+        // the unit tests of the module are not vocabulary, nor are block comments (documentation with examples)
         let code = text.split("#[cfg(test)]").next().unwrap_or("");
+        let code = regex::Regex::new(r"(?s)/\*.*?\*/").unwrap().replace_all(code, "");
+        let code: &str = &code;
         for line in code.lines() {
             let t = line.trim_start();
             if t.starts_with("//") {
@@ -110,6 +117,10 @@ pub fn new_source_literals(l: L) -> Vec<String> {
                 let w = c[1].to_string();
                 let n = w.chars().count();
                 if n >= 1 && n <= 24 && w.chars().all(|ch| ch.is_alphabetic() || ch == '\'' || ch == '-' || ch == ' ') && w.chars().any(|ch| ch.is_alphabetic()) && !known.contains(&w) && !known.contains(&w.to_lowercase()) && !out.contains(&w) {
+                    // a longer ordinary word that merely begins with the literal (tables matched by prefix)
+                    if n >= 3 && w.chars().all(|ch| ch.is_alphabetic()) {
+                        out.push(format!("{w}qwfp"));
+                    }
                     out.push(w);
                 }
             }
